@@ -785,11 +785,11 @@ func Run(cfg vh.Config) (*vh.Result, error) {
 			rn.runDoc(d)
 		}
 		res.InputDistribution["corpus"] = len(docs)
-		n := cfg.Pick(420, 4000)
+		n := cfg.Pick(420, 1000)
 		for i := 0; i < n; i++ {
 			rn.runCase(genCase(rng, false))
 		}
-		ns := cfg.Pick(40, 300)
+		ns := cfg.Pick(40, 100)
 		for i := 0; i < ns; i++ {
 			rn.runCase(genCase(rng, true))
 		}
